@@ -179,8 +179,14 @@ def gen_test(rng, idx, failure=None, kinds=None):
     raise ValueError(kind)
 
 
-def gen_contract(rng, ntests=3, name="T", kinds=None, failure=None):
-    setup = Fn("setUp", [], [SETUP_SLOT_VALUE, 1, "SSTORE", "STOP"])
+def gen_contract(rng, ntests=3, name="T", kinds=None, failure=None, symbolic_setup=False):
+    body = [SETUP_SLOT_VALUE, 1, "SSTORE"]
+    if symbolic_setup:
+        # a stored symbolic value constrained by vm.assume (state-related constraint) and a second symbol that is
+        # constrained but never stored (a constraint outside the state slice of the setUp path)
+        body += A.svm_create_uint256("s") + ["DUP1", 100, "GT"] + [0x600, "MSTORE"] + vm("assume(bool)", [0x600, "MLOAD"]) + [3, "SSTORE"]
+        body += A.svm_create_uint256("u") + [7, "EQ", 0x600, "MSTORE"] + vm("assume(bool)", [0x600, "MLOAD"])
+    setup = Fn("setUp", [], body + ["STOP"])
     tests = [gen_test(rng, i, failure=failure, kinds=kinds) for i in range(ntests)]
     if kinds is None and ntests >= 2 and rng.random() < 0.25:
         # state-interaction contract: an earlier test overwrites what setUp stored, a later test is guarded by it
